@@ -210,8 +210,13 @@ def validation_table(rep: Report):
         rep.evaluations += 1
         if c["api"] == "new":
             # padded size pw x ph realised as render 1x1 + exact padding
+            pad = {"kind": "exact", "l": 0, "t": 0, "r": c["pw"] - 1, "b": c["ph"] - 1}
+            if c.get("pad") == "relw":    # terminal-relative width, absolute height
+                pad = {"kind": "aligned", "w": 0, "h": c["ph"], "ha": 0, "va": 0}
+            elif c.get("pad") == "relh":  # absolute width, terminal-relative height
+                pad = {"kind": "aligned", "w": c["pw"], "h": 0, "ha": 0, "va": 0}
             case = dict(api="new", rw=1, rh=1, frames=2 if c["multi"] else 1, loops=1, cache=False,
-                        pad={"kind": "exact", "l": 0, "t": 0, "r": c["pw"] - 1, "b": c["ph"] - 1},
+                        pad=pad,
                         cols=c["cols"], rows=c["rows"], tty=False, r0=0, animate=c["animate"],
                         check_size=c["check"], allow_scroll=c["scroll"])
         else:
